@@ -646,6 +646,61 @@ def rebuild_atom(a, f):
     raise TypeError(k)
 
 
+def _rename(x, leaf):
+    """structure-preserving renaming of leaf atoms (sym <-> bv): no re-normalisation, so
+    heights and the shape of nested binders are unchanged (only key-dependent orderings
+    -- monomials, max/min arguments, orientation of ==/!= -- are redone)"""
+    if isinstance(x, Poly):
+        acc = {}
+        changed = False
+        for m, c in x.terms:
+            nm = []
+            for a, p in m:
+                b = _rename_atom(a, leaf)
+                if b is not a:
+                    changed = True
+                nm.append((b, p))
+            nm.sort(key=lambda ap: ap[0].key)
+            # merge equal atoms (cannot normally happen under an injective renaming)
+            mm = []
+            for a, p in nm:
+                if mm and mm[-1][0] is a:
+                    mm[-1] = (a, mm[-1][1] + p)
+                else:
+                    mm.append((a, p))
+            km = tuple(mm)
+            acc[km] = acc.get(km, 0) + c
+        return Poly(acc) if changed else x
+    if isinstance(x, Cond):
+        if x.kind == "cmp":
+            op, p = x.args
+            q = _rename(p, leaf)
+            if q is p:
+                return x
+            if op in ("==0", "!=0"):
+                q = _lead_positive(q)
+            return Cond("cmp", (op, q))
+        if x.kind in ("and", "or"):
+            args = [_rename(a, leaf) for a in x.args]
+            return Cond(x.kind, sorted(set(args), key=lambda c: c.key))
+        if x.kind == "not":
+            return Cond("not", (_rename(x.args[0], leaf),))
+        return x
+    return x
+
+
+def _rename_atom(a, leaf):
+    k = a.kind
+    if k in ("sym", "bv"):
+        return leaf(a)
+    new = tuple(_rename(y, leaf) if isinstance(y, (Poly, Cond)) else y for y in a.args)
+    if all(n is o for n, o in zip(new, a.args)):
+        return a
+    if k in ("max", "min") and new[0].key > new[1].key:
+        new = (new[1], new[0])
+    return Atom(k, new, a.sort)
+
+
 def _bvsubst(x, h, repl):
     """replace BV(h) by repl inside x (x is a body of a binder of var index h)."""
     if isinstance(x, Poly):
@@ -702,7 +757,8 @@ def open_binder(a):
     bound, body = (a.args[0], a.args[1]) if a.kind != "lam" else (None, a.args[0])
     h = a.height - 1
     v = fresh("b")
-    nbody = _bvsubst(body, h, v)
+    va = v.terms[0][0][0][0]
+    nbody = _rename(body, lambda at: va if (at.kind == "bv" and at.args[0] == h) else at)
     if len(_open_cache) > 100000:
         _open_cache.clear()
     _open_cache[a] = (v, bound, nbody)
@@ -717,7 +773,8 @@ def close_raw(kind, v, bound, body, sort="real"):
     if r is not None:
         return r
     h = max(body.height, bound.height if bound is not None else 0)
-    cbody = subst(body, {name: bv(h)})
+    ba = bv(h).terms[0][0][0][0]
+    cbody = _rename(body, lambda at: ba if (at.kind == "sym" and at.args[0] == name) else at)
     if kind == "lam":
         r = Poly.atom(Atom("lam", (cbody,), sort))
     else:
@@ -792,9 +849,12 @@ def _multi_sum(vars_, mono):
     """Σ over all (v,bound) in vars_ of the monomial mono (coefficient 1)."""
     vars_ = list(vars_)
     names = [symname(v) for v, _ in vars_]
-    # (a) flatten nested sums that depend on our variables
+    # (a) flatten a nested sum that depends on our variables -- only when it is the single such
+    #     factor: a product of several dependent sums is kept as a product of (canonical) atoms,
+    #     otherwise the merged index set grows beyond what can be ordered canonically
+    dep_sums = [a for a, p in mono if a.kind == "sum" and (a.syms & frozenset(names))]
     for a, p in mono:
-        if a.kind == "sum" and p == 1 and (a.syms & frozenset(names)):
+        if a.kind == "sum" and p == 1 and (a.syms & frozenset(names)) and len(dep_sums) == 1:
             w, wb, wbody = open_binder(a)
             rest = Poly({tuple(x for x in mono if x[0] is not a): Fraction(1)})
             newbody = rest * wbody
